@@ -56,8 +56,8 @@ def gen_policy(rng, o):
     p["handler_p"] = rng.random() < o.get("p_handler", 0.25)
     p["bs_p"] = rng.random() < o.get("p_bs", 0.3)
     p["sleeper_p"] = rng.random() < 0.4
-    # attempt_timeout_s: 96 ticks (1.5 s) is longer than every scripted duration, so it fires only for operations scripted to hang
-    p["att_timeout"] = 96 if rng.random() < o.get("p_att_timeout", 0.15) else None
+    # attempt_timeout_s: 160 ticks (2.5 s) is longer than every scripted duration, so it fires only for operations scripted to hang
+    p["att_timeout"] = 160 if rng.random() < o.get("p_att_timeout", 0.15) else None
     return p
 
 
